@@ -37,6 +37,8 @@ m = {
         "add_only": True,
     },
     "engines": [
+        {"name": "ctx_runner", "path": "/verif/harness/ctx_runner.c", "serves_properties": ["C19"],
+         "kind_free_text": "six gcc builds of /repo/src/fiber_context.c alone (split|mmap|malloc x assembly|ucontext) driven by Hypothesis-generated switch scripts with planted registers"},
         {"name": "vsched", "path": "/verif/engine/vsched.c", "serves_properties": [c["property_id"] for c in checks if c["engine"] == "vsched"],
          "kind_free_text": "own TSan-ABI runtime: kernel threads become virtual threads on one OS thread, every instrumented access is a scheduling point; random-walk / PCT / targeted-delay schedules, x86-TSO store buffers, shadow heap, virtual timer; Hypothesis generates the programs"},
     ],
